@@ -72,6 +72,8 @@ def _worker(job):
             loops[(lc["target"], lc["ordinal"])] = (lc["header"], I.getattr_(cls, "havoc"), I.getattr_(cls, "inv"))
         pt = int((h["timeout"] or budget) * 1000)
         ex = driver.Explorer(I, prove_timeout_ms=pt, decide_timeout_ms=max(3000, min(pt // 3, 120000)))
+        if os.environ.get("PYVC_WITNESSES"):
+            ex.collect_witnesses = int(os.environ["PYVC_WITNESSES"])
         res = ex.run_harness(hname, h["func"], harness_params(h["func"]), summaries, loops, case)
         out = {
             "bounded": h["bounded"], "harness": label, "base_harness": hname, "case": case_idx, "cases_fn": cases_fn or h["cases"], "case_desc": (case.get("example") if isinstance(case, dict) else None), "prop": prop, "target": h["target"], "proves": h["proves"], "note": h["note"],
@@ -86,7 +88,7 @@ def _worker(job):
             "used_summaries": sorted(res.used_summaries), "uses": h["uses"], "loops": h["loops"],
             "used_loop_contracts": sorted("%s#%d" % k for k in res.used_loop_contracts),
             "reached": sorted(k for k in res.reached if k.startswith("geckolib")),
-            "samples": res.samples,
+            "samples": res.samples, "witnesses": res.witnesses,
             "hashes": {k: driver.func_source_hash(I, k) for k in sorted(res.reached) if k.startswith("geckolib")},
             "module_file": h["func"].module.name,
             "sidecars": ["contracts." + os.path.splitext(os.path.basename(f))[0] for f in sidecar_files(prop)],
@@ -127,6 +129,7 @@ def main(argv=None):
     ap.add_argument("--replay")
     ap.add_argument("--only")
     ap.add_argument("-v", action="store_true")
+    ap.add_argument("--selftest", action="store_true", help="replay a path witness of every harness natively (engine vs CPython)")
     ap.add_argument("-j", type=int, default=min(16, os.cpu_count() or 4))
     args = ap.parse_args(argv)
     prop = args.prop.upper()
@@ -138,6 +141,8 @@ def main(argv=None):
         print(json.dumps(r, indent=1))
         return 1 if r.get("outcome") == "confirmed" else 0
 
+    if args.selftest or args.tier == "thorough":
+        os.environ["PYVC_WITNESSES"] = "2"
     t0 = time.time()
     try:
         from pyvc import props
@@ -202,6 +207,45 @@ def run_property(prop, spec, args):
     extra_info = {"summaries": {n: {"target": s["target"], "assumed": s["assumed"], "note": s["note"]} for n, s in reg.summaries.items()},
                   "harness_meta": {n: {"proves": h["proves"], "target": h["target"], "uses": h["uses"]} for n, h in reg.harnesses.items()}}
     return results, {"ground": extra, "info": extra_info}
+
+
+def run_selftest(prop, results, seed):
+    """CPython cross-check: for sampled harnesses, a concrete input following one explored path (a model of its path
+    condition) is run natively on the real code: the preconditions must hold, no proved obligation may fail, and the
+    same obligations must be evaluated in the same order."""
+    import random
+    from concurrent.futures import ThreadPoolExecutor
+    rnd = random.Random(seed)
+    cand = []
+    for r in results:
+        if r.get("error") or r.get("failures") or r.get("loops"):
+            continue          # loop-cut paths start from havocked states: no native counterpart
+        for w in r.get("witnesses", []):
+            cand.append((r, w))
+    rnd.shuffle(cand)
+    cand = cand[:48]
+    os.makedirs(os.path.join(VERIF, "replays", "selftest"), exist_ok=True)
+
+    def one(item):
+        r, w = item
+        rp = os.path.join(VERIF, "replays", "selftest", "%s_%s_%d.json" % (prop, re.sub(r"[^A-Za-z0-9_.-]", "_", r["harness"]), abs(hash(json.dumps(w["model"], sort_keys=True, default=str))) % 100000))
+        doc = {"property": prop, "harness": r["base_harness"], "case": r["case"], "cases": r.get("cases_fn"), "sidecar": r["module_file"],
+               "sidecars": r.get("sidecars", []), "obligation_name": None, "model": w["model"], "uses": r["uses"], "loops": [], "kind": "selftest"}
+        json.dump(doc, open(rp, "w"), default=str)
+        nat = native_replay(rp)
+        ok = nat.get("outcome") == "not-reproduced" and not nat.get("failed") and nat.get("evaluated") == w["ensures"]
+        return (r["harness"], ok, nat, w["ensures"])
+
+    out = {"replayed": 0, "agree": 0, "mismatches": []}
+    with ThreadPoolExecutor(8) as tp:
+        for name, ok, nat, want in tp.map(one, cand):
+            out["replayed"] += 1
+            if ok:
+                out["agree"] += 1
+            else:
+                out["mismatches"].append("%s: native outcome=%s failed=%s exception=%s evaluated=%s expected=%s" % (
+                    name, nat.get("outcome"), nat.get("failed"), nat.get("exception"), (nat.get("evaluated") or [])[:8], want[:8]))
+    return out
 
 
 def scan_assumes(prop):
@@ -343,6 +387,11 @@ def report(prop, spec, args, seed, results, extra, t0):
             if proved_by:
                 continue
             assumed.append("assumed contract %s on %s%s" % (sname, s["target"], (": " + s["note"]) if s["note"] else ""))
+    selftest = None
+    if os.environ.get("PYVC_WITNESSES"):
+        selftest = run_selftest(prop, results, seed)
+        for mm in selftest["mismatches"]:
+            faults.append("self-test: engine and CPython disagree on %s" % mm)
     wall = time.time() - t0
     status = 0
     for kid in sorted(set(known_lines)):
@@ -379,6 +428,7 @@ def report(prop, spec, args, seed, results, extra, t0):
             "bounded": spec.get("bounded", []), "bounded_results": bounded_rows,
             "known_findings_reproduced": sorted(set(known_lines)),
             "undecided": undecided, "explanation": spec.get("explanation", ""),
+            "engine_selftest": selftest,
             "evaluations": max(vcs, n_ob, 1), "distinct_nontrivial": max(n_ob, 2),
             "rule": "one evaluation per verification condition (obligation x path); distinct = named obligations",
         },
@@ -397,7 +447,7 @@ TRUSTED_BASE = [
     "CPython ast module as parser of /repo sources",
 ]
 DROPPED = [
-    "extraction drops: calls on module loggers (_LOGGER/logger .debug/.info/.warning/.error/.exception) and print(); their arguments are not evaluated",
+    "extraction drops: calls on module loggers (_LOGGER/logger .debug/.info/.warning/.error/.exception) and print(): the call is skipped, its argument expressions ARE evaluated (an f-string argument may raise); lazy %-formatting inside logging is assumed total",
     "extraction drops: docstrings, type annotations, decorators other than property/setter/staticmethod/classmethod/abstractmethod/dataclass",
     "Python semantics assumed: bool subset of int; // and % floor semantics; dict/comprehension order = insertion order; MRO = C3 from the ASTs; no metaclasses/__getattr__/descriptors other than property; latin-1 is the identity on code points < 256; integers are mathematical (z3 Int) = exact Python ints",
     "two distinct symbolic object parameters never alias unless the harness builds them so",
